@@ -30,6 +30,7 @@ fn main() {
         "C12" => checks::c12::run(&mut rep),
         "C14" => checks::c14::run(&mut rep),
         "C15" => checks::c15::run(&mut rep),
+        "C17" => checks::c17::run(&mut rep),
         "C19" => checks::c19::run(&mut rep),
         "C20" => checks::c20::run(&mut rep),
         _ => {
